@@ -248,6 +248,7 @@ DOM = {
     'check_foci': [None, False, True],
     'merge': [None, True, False],
     'observed': ['none', 'full', 'gaps'],
+    'touch': [False, True],
 }
 MAPPINGS_T = ['LgResistivity', 'LnConductivity', 'LnResistivity']
 
@@ -292,6 +293,17 @@ def make_survey(c, obs_spec=None):
     freqs = FREQS[c['freqs']]
     survey = emg3d.Survey(list(srcs), recs, list(freqs), noise_floor=1e-16,
                           relative_error=0.05)
+    if c.get('touch'):
+        # reading the public (lazily computed) attributes of the electrodes
+        # beforehand must not change anything
+        for el in list(survey.sources.values()) + list(
+                survey.receivers.values()):
+            for name in dir(el):
+                if not name.startswith('_'):
+                    try:
+                        getattr(el, name)
+                    except Exception:  # noqa - e.g. needs arguments
+                        pass
     return survey, srefs, rabs, freqs
 
 
